@@ -17,18 +17,26 @@ Inductive suffix :=
   | SErrorImpl | SUnwrap | SEncoding | SEnumEncoding | SNullable | SEmptyBehavior | STimestampFormat
   | SBytesEncoding | SFlatten | SOneofDiscriminator | SHttp | SHttpBinding | SHttpConfig | SHttpMock | SClient.
 
-(* protobuf-go strs.GoCamelCase for names without dots *)
+(* protobuf-go strs.GoCamelCase (applied by protogen to the full name minus the package, e.g. "Outer.Inner");
+   [first] = at index 0 or right after a '.' ; [run] = inside a lower-case run that is copied verbatim *)
+Definition dot : ascii := "."%char.
 Fixpoint go_camel_aux (first run : bool) (x : str) : str :=
   match x with
   | [] => []
   | c :: r =>
+      let next_lower := match r with d :: _ => is_lower d | [] => false end in
       if run && is_lower c then c :: go_camel_aux false true r
+      else if Ascii.eqb c dot then (if next_lower then go_camel_aux true false r else underscore :: go_camel_aux true false r)
       else if Ascii.eqb c underscore && first then "X"%char :: go_camel_aux false false r
-      else if Ascii.eqb c underscore && (match r with d :: _ => is_lower d | [] => false end) then go_camel_aux false false r
+      else if Ascii.eqb c underscore && next_lower then go_camel_aux false false r
       else if is_digit c then c :: go_camel_aux false false r
       else to_upper c :: go_camel_aux false true r
   end.
 Definition go_camel (x : str) : str := go_camel_aux true false x.
+(* Go type name of a message / of an enum declared in file f *)
+Definition go_ident (m : message) : str := go_camel (join_with [dot] (m_path m)).
+Definition enum_go_ident (f : file) (e : enum) : str :=
+  go_camel (match fl_package f with [] => e_name e | pk => trim_prefix (pk ++ [dot]) (e_name e) end).
 
 (* ---- feature detectors (the has..Fields functions of both packages) --------------------------- *)
 Definition has_int64_number (m : message) : bool := existsb i64_number (m_fields m).
@@ -129,6 +137,21 @@ Definition client_contexts (sc : schema) (f : file) (c : codec) : list str :=
   | CBytes => map m_name (filter has_bytes_fields (fl_messages f))
   | CFlatten => map m_name (filter has_flatten (fl_messages f))
   | COneof => map m_name (filter has_oneof_discriminator (fl_messages f))
+  end.
+
+(* the Go receiver types of the MarshalJSON methods in an emitted codec file, in order *)
+Definition context_types (p_is_http : bool) (sc : schema) (f : file) (c : codec) : list str :=
+  let keep (has : bool) := if p_is_http then true else has in
+  match c with
+  | CUnwrap => if p_is_http then map go_ident (filter is_root_unwrap (fl_messages f)) ++ map go_ident (filter (is_unwrap_container sc) (fl_messages f)) else []
+  | CInt64 => if keep (has_services f) then map go_ident (filter has_int64_number (fl_messages f)) else []
+  | CEnum => if keep (has_services f) then map (enum_go_ident f) (filter enum_custom (fl_enums f)) else []
+  | CNullable => map go_ident (filter has_nullable (fl_messages f))
+  | CEmpty => map go_ident (filter has_empty_fields (fl_messages f))
+  | CTimestamp => map go_ident (filter has_tsfmt_fields (fl_messages f))
+  | CBytes => map go_ident (filter has_bytes_fields (fl_messages f))
+  | CFlatten => map go_ident (filter has_flatten (fl_messages f))
+  | COneof => map go_ident (filter has_oneof_discriminator (fl_messages f))
   end.
 
 Definition all_codecs : list codec := [CUnwrap; CInt64; CEnum; CNullable; CEmpty; CTimestamp; CBytes; CFlatten; COneof].
@@ -234,12 +257,23 @@ Definition names_json (l : list (str * suffix)) : json :=
   JArr (map (fun e => JStr (strip_proto (fst e) ++ suffix_str (snd e))) l).
 
 (* case: schema + generate_mock flag; observation: the file names each Go plugin answered with, in order *)
+Definition types_json (is_http : bool) (accepted : bool) (sc : schema) : json :=
+  JObj (if accepted then
+          flat_map (fun f => flat_map (fun c => match context_types is_http sc f c with
+                                                | [] => []
+                                                | ts => [(strip_proto (fl_path f) ++ suffix_str (codec_suffix c), jstrs ts)]
+                                                end) all_codecs) (gen_files sc)
+        else []).
+Definition is_none {A} (o : option A) : bool := match o with None => true | Some _ => false end.
+
 Definition predict_C14_files (c : schema * bool) : json :=
   let '(sc, mock) := c in
   if negb (dom_C12 sc) then JObj [(s "unmodelled", JStr (s "a flattened or HTTP-bound message type is outside the schema"))] else
   JObj [(s "tags", jstrs (map c14_defect_str (defects_C14 sc)));
         (s "go-http", names_json (emitted_go_http mock sc));
-        (s "go-client", names_json (emitted_go_client sc))].
+        (s "go-client", names_json (emitted_go_client sc));
+        (s "go-http-types", types_json true (is_none (go_http_accepts sc)) sc);
+        (s "go-client-types", types_json false (is_none (go_client_accepts sc)) sc)].
 
 (* case: schema + a message type; observation: does the type implement json.Marshaler in the
    server-only / the client-only package *)
